@@ -23,7 +23,7 @@ from typing import Any
 
 from ..absint import NN, ConstV, Interp, Iv, Obj, State, Top, join, num
 from ..core import Ctx, RuleResult, rule
-from ..exc import Esc, ExcAnalysis, ExcConfig, facts_at
+from ..exc import Esc, ExcAnalysis, ExcConfig, atoms, facts_at
 from ..kit import own_nodes, sub_nodes
 from ..model import UNKNOWN, AnalysisError, Func, mangle, unparse
 from ..oblig import get_contracts
@@ -940,4 +940,241 @@ def r08_10_field_set_tests(ctx: Ctx) -> RuleResult:
                 rr.fail(f.qual, f"tests the builder's field set for {foreign} while the pattern is still being scanned (this handler adds {sorted(added) or 'nothing'}): the outcome depends on where that field stands in the pattern text", ctx.loc(f, rd))
             else:
                 rr.ok({"handler": f.qual, "tests": sorted(tested)})
+    return rr
+
+
+# ------------------------------------------------------------------------------------------- R08.11 calendar queries
+
+YEAR_PARAMS = {"year", "absolute_year"}
+ERA_PARAMS = {"era"}
+MONTH_PARAMS = {"month"}
+# CalendarSystem methods whose result is a year / an era of the receiving calendar
+YEAR_SOURCES = {"get_absolute_year"}
+ERA_SOURCES = {"_get_era", "get_era"}
+
+
+class _CalendarFlow:
+    """Forward walk over the statements of a parse bucket (joins at merges, own-class calls followed) tracking, for every term
+    passed to a CalendarSystem query as year / era / month, the calendar expressions it is known to be valid for:
+    a year after a range test against <cal>.min_year / <cal>.max_year or when produced by <cal>.get_absolute_year,
+    an era after `in <cal>.eras()` or when produced by <cal>, a month after `<= <cal>.get_months_in_year(..)` (or <= 12)."""
+
+    def __init__(self, ctx: Ctx, rr: RuleResult) -> None:
+        self.ctx, self.M, self.rr = ctx, ctx.M, rr
+        cal = self.M.cls("CalendarSystem", required=True)
+        self.cal_methods = {n: f for n, f in cal.methods.items()}
+        self.reported: set[tuple[str, int]] = set()
+        self.sites: dict[tuple[str, int], bool] = {}
+
+    # -- helpers
+    def _query(self, n: ast.AST) -> tuple[str, Func] | None:
+        if isinstance(n, ast.Call) and isinstance(n.func, ast.Attribute) and n.func.attr in self.cal_methods and "calendar" in unparse(n.func.value).lower():
+            return unparse(n.func.value), self.cal_methods[n.func.attr]
+        return None
+
+    @staticmethod
+    def _join(a: dict | None, b: dict | None) -> dict | None:
+        if a is None:
+            return b
+        if b is None:
+            return a
+        return {k: a.get(k, set()) & b.get(k, set()) for k in set(a) | set(b)}
+
+    def _apply(self, st: dict, facts: set[tuple[str, str, str]]) -> dict:
+        st = {k: set(v) for k, v in st.items()}
+        for lhs, op, rhs in facts:
+            if op == "<=" and rhs.endswith(".max_year") and (lhs, ">=", rhs[: -len(".max_year")] + ".min_year") in facts:
+                st.setdefault(lhs, set()).add(rhs[: -len(".max_year")])
+            if op == "in" and rhs.endswith(".eras()"):
+                st.setdefault(lhs, set()).add(rhs[: -len(".eras()")])
+            if op == "<=" and ".get_months_in_year(" in rhs:
+                st.setdefault(lhs, set()).add(rhs.split(".get_months_in_year(")[0])
+            if op == "<=" and rhs.isdigit() and int(rhs) <= 12:
+                st.setdefault(lhs, set()).add("*")
+        return st
+
+    def _value_status(self, v: ast.expr, st: dict) -> set[str]:
+        q = self._query(v)
+        if q is not None and (q[1].name in YEAR_SOURCES or q[1].name in ERA_SOURCES):
+            return {q[0]}
+        if isinstance(v, (ast.Name, ast.Attribute)) and unparse(v) in st:
+            return set(st[unparse(v)])
+        if isinstance(v, ast.IfExp):
+            return self._value_status(v.body, st) & self._value_status(v.orelse, st)
+        return set()
+
+    # -- expressions: uses, short-circuit facts, own-class calls
+    def expr(self, f: Func, e: ast.AST | None, st: dict, depth: int) -> None:
+        if e is None:
+            return
+        if isinstance(e, ast.BoolOp):
+            cur = st
+            for v in e.values:
+                self.expr(f, v, cur, depth)
+                cur = self._apply(cur, atoms(v, isinstance(e.op, ast.And)))
+            return
+        if isinstance(e, ast.IfExp):
+            self.expr(f, e.test, st, depth)
+            self.expr(f, e.body, self._apply(st, atoms(e.test, True)), depth)
+            self.expr(f, e.orelse, self._apply(st, atoms(e.test, False)), depth)
+            return
+        if isinstance(e, ast.Lambda):
+            return
+        q = self._query(e)
+        if q is not None:
+            from ..kit import bind_args
+
+            cal, g = q
+            for pname, arg in bind_args(e, g).items():
+                kind = "year" if pname in YEAR_PARAMS else "era" if pname in ERA_PARAMS else "month" if pname in MONTH_PARAMS else None
+                if kind is None or not isinstance(arg, (ast.Name, ast.Attribute)):
+                    continue
+                term = unparse(arg)
+                key = (f.qual, getattr(e, "lineno", 0), pname)
+                ok = cal in st.get(term, set()) or "*" in st.get(term, set())
+                self.sites[key] = self.sites.get(key, True) and ok
+                if not ok and key not in self.reported:
+                    self.reported.add(key)
+                    self.rr.fail(f.qual, f"`{unparse(e)[:90]}`: the {kind} `{term}` is not known to be valid for `{cal}` on every path reaching this call (no range / membership test against that calendar since it was last assigned, and not produced by it): the calendar raises inside parse", self.ctx.loc(f, e))
+        if isinstance(e, ast.Call) and isinstance(e.func, ast.Attribute) and isinstance(e.func.value, ast.Name) and e.func.value.id in ("self", "cls") and f.cls is not None and depth < 4:
+            g = self.M.find_method(f.cls, mangle(e.func.attr, f.cls.name)) or self.M.find_method(f.cls, e.func.attr)
+            if g is not None and not isinstance(g.node, ast.Lambda) and g is not f:
+                for a in list(e.args) + [k.value for k in e.keywords]:
+                    self.expr(f, a, st, depth)
+                res = self.method(g, st, depth + 1)
+                if res is not None:
+                    st.update(res)  # in place: the caller continues with the state of the callee's successful exits
+                return
+        for c in ast.iter_child_nodes(e):
+            self.expr(f, c, st, depth)
+
+    def method(self, g: Func, st: dict, depth: int) -> dict | None:
+        """State after a successful call of g (exits returning None when g follows the `failure or None` convention, all exits otherwise)."""
+        exits: list[tuple[ast.expr | None, dict]] = []
+        tail = self.block(g, g.body, {k: set(v) for k, v in st.items()}, depth, exits)
+        if tail is not None:
+            exits.append((None, tail))
+        succ = [s for v, s in exits if v is None or (isinstance(v, ast.Constant) and v.value is None)]
+        chosen = succ if succ and len(succ) < len(exits) or succ and all(v is None or isinstance(v, ast.Constant) for v, _ in exits) else [s for _, s in exits]
+        out: dict | None = None
+        for s in chosen:
+            out = self._join(out, s)
+        return out
+
+    def block(self, f: Func, stmts: list[ast.stmt], st: dict | None, depth: int, exits: list) -> dict | None:
+        for s in stmts:
+            if st is None:
+                return None
+            if isinstance(s, ast.Return):
+                self.expr(f, s.value, st, depth)
+                exits.append((s.value, st))
+                return None
+            if isinstance(s, ast.Raise):
+                return None
+            if isinstance(s, ast.If):
+                st = {k: set(v) for k, v in st.items()}
+                self.expr(f, s.test, st, depth)
+                a = self.block(f, s.body, self._apply(st, atoms(s.test, True)), depth, exits)
+                b = self.block(f, s.orelse, self._apply(st, atoms(s.test, False)), depth, exits)
+                st = self._join(a, b) if (a is not None and b is not None) else (a if b is None else b)
+                continue
+            if isinstance(s, (ast.Assign, ast.AnnAssign, ast.AugAssign)):
+                st = {k: set(v) for k, v in st.items()}
+                self.expr(f, s.value, st, depth)
+                tgs = s.targets if isinstance(s, ast.Assign) else [s.target]
+                for t in tgs:
+                    if isinstance(t, (ast.Name, ast.Attribute)):
+                        term = unparse(t)
+                        if isinstance(s, ast.AugAssign) or s.value is None:
+                            st = {**st, term: set()}
+                        else:
+                            st = {**st, term: self._value_status(s.value, st)}
+                        if "calendar" in term.lower():
+                            # the calendar itself changed: nothing is known to be valid for it any more
+                            st = {k: {c for c in v if c != term} for k, v in st.items()}
+                continue
+            if isinstance(s, ast.Expr):
+                st = {k: set(v) for k, v in st.items()}
+                self.expr(f, s.value, st, depth)
+                continue
+            if isinstance(s, (ast.For, ast.While)):
+                self.expr(f, s.iter if isinstance(s, ast.For) else s.test, st, depth)
+                body = self.block(f, s.body, st if isinstance(s, ast.For) else self._apply(st, atoms(s.test, True)), depth, exits)
+                st = self._join(st, body) if body is not None else st
+                if s.orelse:
+                    st = self.block(f, s.orelse, st, depth, exits)
+                continue
+            if isinstance(s, ast.With):
+                for it in s.items:
+                    self.expr(f, it.context_expr, st, depth)
+                st = self.block(f, s.body, st, depth, exits)
+                continue
+            if isinstance(s, ast.Try):
+                a = self.block(f, s.body, st, depth, exits)
+                outs = [a] + [self.block(f, h.body, st, depth, exits) for h in s.handlers]
+                st2: dict | None = None
+                for o in outs:
+                    st2 = self._join(st2, o) if o is not None else st2
+                st = st2
+                if s.finalbody and st is not None:
+                    st = self.block(f, s.finalbody, st, depth, exits)
+                continue
+            if isinstance(s, ast.Match):
+                self.expr(f, s.subject, st, depth)
+                outs = [self.block(f, c.body, st, depth, exits) for c in s.cases]
+                has_default = any(isinstance(c.pattern, ast.MatchAs) and c.pattern.pattern is None and c.guard is None for c in s.cases)
+                st2 = None if has_default else st
+                for o in outs:
+                    st2 = self._join(st2, o) if o is not None else st2
+                st = st2
+                continue
+            if isinstance(s, ast.Assert):
+                self.expr(f, s.test, st, depth)
+                st = self._apply(st, atoms(s.test, True))
+                continue
+            if isinstance(s, (ast.Pass, ast.Import, ast.ImportFrom, ast.FunctionDef, ast.ClassDef, ast.Global, ast.Nonlocal, ast.Break, ast.Continue, ast.Delete)):
+                if isinstance(s, (ast.Break, ast.Continue)):
+                    return None
+                continue
+            raise AnalysisError(f"{f.qual}: statement kind {type(s).__name__} not handled by the calendar-query walk")
+        return st
+
+
+@rule("C08")
+def r08_11_calendar_queries(ctx: Ctx) -> RuleResult:
+    """A parse bucket may hold a calendar parsed from the text ('c') together with years / eras that come from the template value or
+    from digits: CalendarSystem queries validate their year / era / month arguments by raising, so each such argument must, on
+    every path from calculate_value, have been range- or membership-tested against the calendar that is asked (or produced by
+    it).  Otherwise `parse` raises ValueError instead of returning a failed ParseResult (D22)."""
+    rr = RuleResult("R08.11", "every year / era / month handed to a CalendarSystem query while a parse bucket computes its value was validated against that calendar on every path (range test against min_year/max_year, membership in eras(), <= months in year) or produced by it", min_instances=5)
+    M = ctx.M
+    flow = _CalendarFlow(ctx, rr)
+    entries = []
+    for lst in M.classes.values():
+        for c in lst:
+            if not c.mod.rel.startswith(TEXT) or "calculate_value" not in c.methods:
+                continue
+            if not any(flow._query(n) is not None for g in c.methods.values() if not isinstance(g.node, ast.Lambda) for n in ast.walk(g.node)):
+                continue
+            entries.append(c.methods["calculate_value"])
+    if not entries:
+        raise AnalysisError("no parse bucket with calendar queries found")
+    for f in sorted(entries, key=lambda g: g.qual):
+        # parsed eras come from the bucket's own calendar (the era parse action iterates <calendar>.eras()); years are any digits
+        init: dict[str, set[str]] = {}
+        for g in f.cls.methods.values():
+            if isinstance(g.node, ast.Lambda):
+                continue
+            for n in own_nodes(g.node):
+                if isinstance(n, ast.For) and isinstance(n.iter, ast.Call) and unparse(n.iter).endswith(".eras()") and isinstance(n.target, ast.Name):
+                    calx = unparse(n.iter)[: -len(".eras()")]
+                    for a in ast.walk(n):
+                        if isinstance(a, ast.Assign) and isinstance(a.value, ast.Name) and a.value.id == n.target.id:
+                            for t in a.targets:
+                                init.setdefault(unparse(t), set()).add(calx)
+        flow.method(f, init, 0)
+    for key, ok in sorted(flow.sites.items()):
+        rr.inst()
+        if ok:
+            rr.ok({"call": f"{key[0]}:{key[1]}", "argument": key[2]})
     return rr
